@@ -224,6 +224,9 @@ class Fn:
                 if not ds:                                   # to unsigned: modular
                     if not ss and dw >= sw:
                         return b, t, "Z"
+                    lv0 = strip(inner[-1])
+                    if lv0.get("kind") == "IntegerLiteral" and 0 <= int(lv0["value"]) < (1 << dw):
+                        return b, t, "Z"
                     return b, "(Z.modulo %s (2 ^ %d))" % (t, dw), "Z"
                 lv = inner[-1]
                 if strip(lv).get("kind") in ("IntegerLiteral", "CharacterLiteral"):
@@ -249,6 +252,8 @@ class Fn:
             if name in scope:
                 return [], name, self.kinds.get(name, "Z")
             if ref.get("kind") == "VarDecl":
+                if re.match(r"^const char\[\d+\]$", ref.get("type", {}).get("qualType", "")):
+                    return [], "0", "tptr:" + self.table_of(n)          # the table itself: its first element
                 v = global_const(name, SRC)
                 if isinstance(v, int):
                     return [], zl(v), "Z"
@@ -364,6 +369,29 @@ class Fn:
                     raise Untranslatable("division by a non-constant or non-positive value")
                 return b1 + b2, "(Z.%s %s %s)" % ("quot" if op == "/" else "rem", t1, t2), "Z"
             raise Untranslatable("binary " + op)
+        if k == "CompoundAssignOperator":
+            op = n["opcode"]
+            tgt = strip(inner[0])
+            v = tgt.get("referencedDecl", {}).get("name") if tgt.get("kind") == "DeclRefExpr" else None
+            if v is None:
+                p = path_of(inner[0])
+                v = self.var_of_path(*p) if p else None
+            if v is None or v not in scope or self.kinds.get(v, "Z") != "Z":
+                raise Untranslatable("compound assignment to something that is not an integer variable")
+            b, t, kd = self.expr(inner[1], scope)
+            t = self.as_z(t, kd)
+            cw = WIDTH.get(tystr(n.get("computeResultType", {})))
+            if op in ("+=", "-=", "*=") and cw in (32, 64):
+                x = self.fresh()
+                f = {"+": "add", "-": "sub", "*": "mul"}[op[0]]
+                lw, _sg = self.width(tgt)
+                out = b + [B("do %s <- %s%d %s %s ;;\n" % (x, f, cw, v, t))]
+                if lw < cw:
+                    y = self.fresh()
+                    out.append(B("do %s <- narrow%d %s ;;\n" % (y, lw, x)))
+                    x = y
+                return out + [B("let %s := %s in\n" % (v, x), v)], v, "Z"
+            raise Untranslatable("compound assignment " + op)
         if k == "ConditionalOperator":
             raise Untranslatable("conditional operator")
         if k == "CallExpr":
@@ -686,9 +714,7 @@ class Fn:
                         raise Untranslatable("assign from " + k1)
                     return txt(b1 + b2) + "do %s <- substr buf %s %s ;;\n" % (v, t1, self.as_z(t2, k2)) + self.seq(rest, scope, tail)
             raise Untranslatable("member call statement")
-        if k == "CompoundAssignOperator":
-            raise Untranslatable("compound assignment")
-        if k in ("BinaryOperator", "UnaryOperator", "CallExpr", "ExprWithCleanups"):
+        if k in ("BinaryOperator", "UnaryOperator", "CallExpr", "ExprWithCleanups", "CompoundAssignOperator"):
             b, t, kd = self.expr(st, scope)
             return txt(b) + self.seq(rest, scope, tail)
         raise Untranslatable("statement " + str(k))
